@@ -1139,13 +1139,40 @@ func (fx *FnExec) tagOf(t types.Type) int {
 		for _, fn := range sortedKeys(fx.ifacePreds) {
 			fx.stateImplements(fn, fx.ifacePreds[fn], id, t)
 		}
-		if types.Comparable(t) {
-			fx.assumeGlobal(fmt.Sprintf("(hashable %d)", id))
-		} else {
+		// (hashable tag): every value of this dynamic type can be compared and hashed without a
+		// runtime panic. True for strictly comparable types, false for types that are not
+		// comparable at all; a comparable type with an interface-typed component (a struct or an
+		// array holding interfaces) depends on the value and is left open: such a value is safe
+		// when reflect.Value.Comparable says so (uf_cmpSafe).
+		if !types.Comparable(t) {
 			fx.assumeGlobal(fmt.Sprintf("(not (hashable %d))", id))
+		} else if strictlyComparable(t, 0) {
+			fx.assumeGlobal(fmt.Sprintf("(hashable %d)", id))
 		}
 	}
 	return id
+}
+
+// strictlyComparable: comparable, and no component of interface type (whose comparison can panic
+// depending on the dynamic value).
+func strictlyComparable(t types.Type, depth int) bool {
+	if depth > 8 {
+		return false
+	}
+	switch u := t.Underlying().(type) {
+	case *types.Interface:
+		return false
+	case *types.Struct:
+		for i := 0; i < u.NumFields(); i++ {
+			if !strictlyComparable(u.Field(i).Type(), depth+1) {
+				return false
+			}
+		}
+		return true
+	case *types.Array:
+		return strictlyComparable(u.Elem(), depth+1)
+	}
+	return types.Comparable(t)
 }
 
 // localArrayPrivate: the array variable is used only through element addresses that are loaded from
@@ -1281,7 +1308,8 @@ func (fx *FnExec) hashableKey(in ssa.Instruction, mt *types.Map, k string) {
 		return
 	}
 	// (hashable tag) is declared in spec/00_base.smt2; facts are stated where tags are introduced (tagOf)
-	fx.oblige("hash", "(hashable (i.tag "+k+"))", in, "map key of interface type has a comparable dynamic type (runtime error: hash of unhashable type)")
+	fx.declareFun("uf_cmpSafe", []string{"Iface"}, "Bool")
+	fx.oblige("hash", "(or (hashable (i.tag "+k+")) (uf_cmpSafe "+k+"))", in, "map key of interface type has a comparable dynamic type (runtime error: hash of unhashable type)")
 }
 
 func (fx *FnExec) execMapUpdate(x *ssa.MapUpdate) {
@@ -1461,7 +1489,8 @@ func (fx *FnExec) execBinOp(x *ssa.BinOp) {
 		// (slice, map, func): "runtime error: comparing uncomparable type"
 		if xs == "Iface" && (x.Op == token.EQL || x.Op == token.NEQ) && !isNilConst(x.X) && !isNilConst(x.Y) {
 			fx.tagOf(types.Typ[types.Int]) // make sure the hashable facts are declared
-			fx.oblige("cmp", "(or (distinct (i.tag "+a+") (i.tag "+b+")) (hashable (i.tag "+a+")))", x, "interface values compared with == hold comparable dynamic types (runtime error: comparing uncomparable type)")
+			fx.declareFun("uf_cmpSafe", []string{"Iface"}, "Bool")
+			fx.oblige("cmp", "(or (distinct (i.tag "+a+") (i.tag "+b+")) (hashable (i.tag "+a+")) (uf_cmpSafe "+a+") (uf_cmpSafe "+b+"))", x, "interface values compared with == hold comparable dynamic types (runtime error: comparing uncomparable type)")
 		}
 		switch x.Op {
 		case token.EQL:
